@@ -27,4 +27,10 @@ OBLIGATIONS = krow_reader_obligations() + [
         bounds="real Table on the lxml model: row [1, empty x 0..3] + 0..3 empty rows; Markdown, plain text, RST, str(), CSV export, each twice",
         encodes=["src/odfdo/mixin_md.py:MDTable._md_format", "src/odfdo/table.py:Table.get_formatted_text,_get_formatted_text_normal,_get_formatted_text_rst,__str__,to_csv,optimize_width,rstrip"],
         stubs=["/verif/shadow/lxml (symdom)"]),
+    Obl(name="count_pure_ws", module="h_repl", func="count_pure_ws", shadow=True, timeout=300, replay="r_h_repl:count_pure_ws", weight=30,
+        bounds="replace(pattern, formatted=True) in count mode on a raw text node of <= 3 characters over {a, space, tab}",
+        encodes=["src/odfdo/element.py:Element.replace (count mode)"], stubs=["/verif/shadow/lxml (symdom)"]),
+    Obl(name="search_pos_pat0", module="h_repl", func="search_pos", shadow=True, timeout=200, env={"VERIF_PAT": "0"}, extra={"pat": 0}, replay="r_h_repl:search_pos", weight=25,
+        bounds="search/search_first/search_all/match/text_recursive on <p>t0<span>t1</span>ab</p>, pattern 'a'",
+        encodes=["src/odfdo/element.py:Element.search,search_first,search_all,match,text_recursive,inner_text"], stubs=["/verif/shadow/lxml (symdom)"]),
 ]
